@@ -689,6 +689,16 @@ def _run_continuum(case):
                     if worst > 1e-13 * scale:
                         vio.append(viol("outside_zero", f"{tag}: pressure reaches nodes outside the face ({worst:.3e})", **kk))
                     nontrivial |= info["n"] >= 2
+            # a pressure on nodes that bound no complete boundary element (one node of the face) contributes nothing
+            try:
+                vec = _apply(cx, load, nodes[:1], 3.0, None)
+                if np.abs(vec).max(initial=0.0) != 0.0:
+                    vio.append(viol("outside_zero", f"{tag}: one node of the face bounds no boundary element but the pressure vector is not zero",
+                                    **dict(cx.key, sel="single_node", form="const")))
+            except (ZeroDivisionError, ValueError, IndexError, AssertionError) as err:
+                cx.ops += 1
+                vio.append(viol("nothing_selected_raises", f"{tag}: one selected node bounds no boundary element; instead of contributing nothing add_{load} raised "
+                                                           f"{type(err).__name__}: {err}", **dict(cx.key, sel="single_node", error=type(err).__name__)))
             continue
         if not region.pieces:
             # the selected nodes bound no element of the loaded dimension: "contribute nothing" (a result is promised)
